@@ -790,7 +790,17 @@ func genValue(t *rapid.T, kind int) (int64, int) {
 	if nonNegative(kind) {
 		lo = 0
 	}
-	return int64(rapid.IntRange(lo, 9).Draw(t, "k")), rapid.IntRange(-3, 3).Draw(t, "e")
+	e := rapid.IntRange(-3, 3).Draw(t, "e")
+	if rapid.IntRange(0, 3).Draw(t, "bigvalue") == 0 {
+		// larger values and bucket boundaries of the default / generated bounds,
+		// so that the values folded into one point differ widely
+		k := rapid.SampledFrom([]int64{10, 16, 25, 50, 64, 4, 5, 1}).Draw(t, "k")
+		if lo < 0 && rapid.Bool().Draw(t, "neg") {
+			k = -k
+		}
+		return k, e
+	}
+	return int64(rapid.IntRange(lo, 9).Draw(t, "k")), e
 }
 
 func genCycles(t *rapid.T, c *Case, maxOps, maxObs int) {
